@@ -36,6 +36,7 @@ ASSUMPTIONS = ["one physical exit per device; balls only enter a device when a s
                "without closing a switch)", "no jam switch, no entrance-switch counter, no mechanical eject, ball search off",
                "two sources feeding one target can double-fire (known finding D16)"]
 
+KNOWN_SIG = "fired-into-full-device:two-sources"      # D16, only for the two_src topology with a ball from the other source
 OUTCOMES = ["ok"] * 7 + ["fallback", "stuck", "late", "astray"]
 
 
@@ -160,8 +161,9 @@ def eval_case(ctx, case, model, focus):
             ctx.count("other_property_failure")
             continue
         c2 = case
-        if not sig.startswith("fired-into-full-device:two-sources"):
-            c2 = shrink(case, sig)
+        unknown = [f for f in ctx.failures if f["signature"] != KNOWN_SIG]
+        if sig != KNOWN_SIG and not unknown:
+            c2 = shrink(case, sig)          # only the first failure of a run is shrunk (it becomes the replay)
         ctx.fail(sig, c2, detail)
     return res
 
@@ -171,8 +173,10 @@ def run(ctx, focus="C04", ident=ID):
     try:
         if focus == "C04":
             eval_case(ctx, d16_case(ctx.rng("d16")), model, focus)
-        for i in range(ctx.n(600, 9000)):
+        for i in range(ctx.n(600, 6000)):
             eval_case(ctx, gen_case(ctx.rng("case", i), i, heavy=(focus == "C05")), model, focus)
+            if len([f for f in ctx.failures if f["signature"] != KNOWN_SIG]) >= 3:
+                break                       # a violation is established; the first (shrunk) one is reported
     finally:
         if model is not None:
             model.close()
